@@ -124,8 +124,10 @@ class Ctx:
         if procs <= 1 or len(items) <= 1:
             return [fn(i) for i in items]
         c = mp.get_context("fork")
-        with c.Pool(min(procs, len(items))) as pool:
-            return pool.map(fn, items, chunksize)
+        from concurrent.futures import ProcessPoolExecutor
+        # a worker killed by a signal raises BrokenProcessPool instead of hanging the pool
+        with ProcessPoolExecutor(min(procs, len(items)), mp_context=c) as ex:
+            return list(ex.map(fn, items, chunksize=chunksize))
 
 
 class Watchdog:
@@ -215,6 +217,9 @@ def main(argv=None):
         a.pid, a.tier, seed, time.time() - ctx.t0, ctx.n_violations, ctx.n_known,
         {k: v for k, v in coverage.items() if isinstance(v, (int, float, bool))}))
     if ctx.n_violations:
+        print("unlisted violation signatures:")
+        for k, v in sorted(ctx._viol_sigs.items()):
+            print("  %5d  %s" % (v, k))
         return 1
     if not valid:
         return 2
